@@ -202,20 +202,31 @@ fn check_output(t_doc: &V, types_with_props: &[String], scalars: &[(String, Stri
     }
     // (d) a fresh value for one scalar property occurrence makes exactly that type's rule FAIL
     let mut mutated = 0;
-    for (res, ty, prop, v) in scalars {
-        let fresh = match v {
-            V::Str(_) => V::s("zz-fresh-value"),
-            V::Int(_) => V::Int(987654),
-            V::Bool(_) => V::s("zz-not-a-bool"),
-            _ => continue,
+    for (k, (res, ty, prop, v)) in scalars.iter().enumerate() {
+        // the new value: one that occurs nowhere in the template, or (every other occurrence) a
+        // scalar that the template holds for ANOTHER property of the same type but not for this one
+        let borrowed = scalars
+            .iter()
+            .filter(|(_, t2, p2, v2)| t2 == ty && p2 != prop && !scalars.iter().any(|(_, t3, p3, v3)| t3 == ty && p3 == prop && v3 == v2))
+            .map(|(_, _, _, v2)| v2.clone())
+            .next();
+        let fresh = match (k % 2 == 1, borrowed) {
+            (true, Some(b)) => b,
+            _ => match v {
+                V::Str(_) => V::s("zz-fresh-value"),
+                V::Int(_) => V::Int(987654),
+                V::Bool(_) => V::s("zz-not-a-bool"),
+                _ => continue,
+            },
         };
+        let fresh_text = fresh.to_json();
         let mut d2 = t_doc.clone();
         if let V::Map(top) = &mut d2 {
             if let Some((_, V::Map(rs))) = top.iter_mut().find(|(k, _)| k == "Resources") {
                 if let Some((_, V::Map(r))) = rs.iter_mut().find(|(k, _)| k == res) {
                     if let Some((_, V::Map(ps))) = r.iter_mut().find(|(k, _)| k == "Properties") {
                         if let Some((_, pv)) = ps.iter_mut().find(|(k, _)| k == prop) {
-                            *pv = fresh;
+                            *pv = fresh.clone();
                         }
                     }
                 }
@@ -227,7 +238,7 @@ fn check_output(t_doc: &V, types_with_props: &[String], scalars: &[(String, Stri
             let want = if *n == rn { St::Fail } else { St::Pass };
             if *s != want {
                 return Err((
-                    format!("after changing {}.Properties.{} from {} to a value not in the template, rule {} is {} (expected {}):\n{}", res, prop, v.to_json(), n, s.text(), want.text(), out),
+                    format!("after changing {}.Properties.{} from {} to {} (not a value of that property of that type in the template), rule {} is {} (expected {}):\n{}", res, prop, v.to_json(), fresh_text, n, s.text(), want.text(), out),
                     sig("mutation-not-detected"),
                 ));
             }
@@ -298,7 +309,7 @@ fn random_case(u: &mut Choices) -> CaseResult {
 
 pub fn run(tier: Tier, seed: u64) -> i32 {
     let spec = EvidenceSpec {
-        rule: "Generated CloudFormation-shaped templates: 1-3 resource types x 1-3 resources each, 0-3 properties per type (all resources of a type share the key set), values: strings (dashes, blanks, digits-only, quotes, unicode, empty; one case in six also blank-padded / quote / backslash strings), ints, bools, lists and maps; a third of the values shared across resources; written as JSON or block YAML with random layout. `cfn-guard rulegen` (real binary) must either print a diagnostic and no rules, or rules that (a) parse (parse-tree), (b) are exactly one rule per type with properties, (c) all PASS on the source template (run_checks), and (d) for every scalar property occurrence, replacing the value by one not present in the template makes exactly that type's rule FAIL. Non-trivial: two resources of a type differ in a property, a nested value is present, and at least one mutation was checked; distinct by template text.".into(),
+        rule: "Generated CloudFormation-shaped templates: 1-3 resource types x 1-3 resources each, 0-3 properties per type (all resources of a type share the key set), values: strings (dashes, blanks, digits-only, quotes, unicode, empty; one case in six also blank-padded / quote / backslash strings), ints, bools, lists and maps; a third of the values shared across resources; written as JSON or block YAML with random layout. `cfn-guard rulegen` (real binary) must either print a diagnostic and no rules, or rules that (a) parse (parse-tree), (b) are exactly one rule per type with properties, (c) all PASS on the source template (run_checks), and (d) for every scalar property occurrence, replacing the value by one not present in the template, or by a value the template holds only for another property of that type, makes exactly that type's rule FAIL. Non-trivial: two resources of a type differ in a property, a nested value is present, and at least one mutation was checked; distinct by template text.".into(),
         assumptions: vec!["properties present on only some resources of a type are excluded by construction (recorded finding F22: rulegen emits a clause every resource of the type must satisfy)".into()],
     };
     execute("C19", tier, seed, spec, &replay, &|run: &Session| {
